@@ -2,6 +2,7 @@ package l2
 
 import (
 	"fmt"
+	"strings"
 
 	"verif/harness/hcommon"
 )
@@ -483,7 +484,7 @@ func (g *genState) next() map[string]any {
 		if r.Chance(1, 12) {
 			p = hcommon.Pick(r, append(badURIs, "wamp.x", "wamp.session.count"))
 		}
-		if _, pattern := o["match"]; !pattern {
+		if _, pattern := o["match"]; !pattern && !strings.HasPrefix(p, "wamp.") {
 			g.regProcs = append(g.regProcs, p)
 			if _, seen := g.regPolicy[p]; !seen {
 				g.regPolicy[p] = o["invoke"]
